@@ -465,31 +465,27 @@ def writes_in_place(o):
 
 
 def perturb(rng, t, domain, scale):
-    """New valid value for a base parameter, as nested lists."""
+    """New valid value for a base parameter (same shape, batched or not), as nested lists."""
     import torch
 
-    flat = t.detach().reshape(-1).tolist()
-    n = len(flat)
+    x = t.detach().to(torch.float64)
+    noise = torch.tensor([rng.normal() for _ in range(x.numel())], dtype=torch.float64).reshape(x.shape) * scale
     if domain == "real":
-        new = [x + scale * rng.normal() for x in flat]
+        new = x + noise
     elif domain == "positive":
-        new = [max(x, 1e-12) * math.exp(scale * rng.normal()) for x in flat]
+        new = x.clamp_min(1e-12) * noise.exp()
     elif domain == "unit":
-        new = []
-        for x in flat:
-            x = min(max(x, 1e-9), 1 - 1e-9)
-            lo = math.log(x / (1 - x)) + scale * rng.normal()
-            new.append(1.0 / (1.0 + math.exp(-lo)))
+        xc = x.clamp(1e-9, 1 - 1e-9)
+        new = torch.sigmoid(torch.log(xc / (1 - xc)) + noise)
     elif domain == "simplex":
-        w = [max(x, 1e-12) * math.exp(scale * rng.normal()) for x in flat]
-        s = sum(w)
-        new = [x / s for x in w]
+        w = x.clamp_min(1e-12) * noise.exp()
+        new = w / w.sum(-1, keepdim=True)  # every row stays on the simplex
     elif domain.startswith("above:"):
         lo = float(domain.split(":")[1])
-        new = [lo + max(x - lo, 1e-9) * math.exp(scale * rng.normal()) for x in flat]
+        new = lo + (x - lo).clamp_min(1e-9) * noise.exp()
     else:
         raise ValueError(domain)
-    return torch.tensor(new, dtype=t.dtype).reshape(t.shape).tolist()
+    return new.to(t.dtype).tolist()
 
 
 def generate(seed, index, tier):
